@@ -95,7 +95,7 @@ fn check_file(bytes: &[u8], version: u64, ty: u64, pairs: &Pairs, container: Con
             meta(&fst::raw::Fst::new(c).map_err(|e| open_err(e, "Cow::Owned"))?, version, ty, n, what, "Cow::Owned")?
         }
         Container::Mmap => {
-            let dir = format!("{}/work/c10", VERIF_DIR);
+            let dir = format!("{}/work/c10", crate::engine::out_dir());
             let _ = std::fs::create_dir_all(&dir);
             let path = format!("{}/{:?}-{:016x}.fst", dir, std::thread::current().id(), crate::engine::fnv(bytes));
             {
